@@ -79,7 +79,7 @@ def parse_pls(data):
     try:
         cp = configparser.RawConfigParser(strict=False)
         cp.read_string(data.decode())
-    except configparser.Error:
+    except (configparser.Error, UnicodeDecodeError):
         return
 
     for section in cp.sections():
